@@ -55,6 +55,9 @@ func (m *TapeManager) GetWriter() (config.DriveWriterConfig, error) {
 		overwrite,
 	)
 	if err != nil {
+		// Release the drive again, otherwise every following operation would block forever
+		m.physicalLock.Unlock()
+
 		return config.DriveWriterConfig{}, err
 	}
 
@@ -80,6 +83,9 @@ func (m *TapeManager) GetReader() (config.DriveReaderConfig, error) {
 func (m *TapeManager) Close() error {
 	if m.closer != nil {
 		if err := m.closer(); err != nil {
+			// The drive is no longer in use even if closing it failed
+			m.physicalLock.Unlock()
+
 			return err
 		}
 	}
